@@ -253,7 +253,12 @@ def _cell_init(stmt, src):
     if len(stmt) <= i or stmt[i].kind != 'ident':
         return None
     name = stmt[i].text
-    j = match_seq(stmt, i + 1, ['=', 'Arc', ':', ':', 'new', '(…)'])
+    e = i + 1
+    if len(stmt) > e and stmt[e].is_p(':') and not (len(stmt) > e + 1 and stmt[e + 1].is_p(':')):
+        # an explicit type annotation `let X: Arc<RwLock<T>> = ..` says nothing new (Verus re-checks the type of the initialiser)
+        while e < len(stmt) and not stmt[e].is_p('='):
+            e += 1
+    j = match_seq(stmt, e, ['=', 'Arc', ':', ':', 'new', '(…)'])
     if j < 0 or j != len(stmt):
         return None
     g = stmt[j - 1]
@@ -453,7 +458,8 @@ KEYWORDS = set('as break const continue crate else enum extern false fn for if i
                'return self Self static struct super trait true type unsafe use where while dyn'.split())
 
 
-FORWARDERS = (r'move\|(\w+)\|\{(\w+)\.next\(\1\);?\}', r'move\|(\w+)\|\{(\w+)\.error\(\1\);?\}', r'move\|\|\{(\w+)\.complete\(\);?\}')
+# block-bodied or expression-bodied plain forwarders
+FORWARDERS = (r'move\|(\w+)\|\{?(\w+)\.next\(\1\);?\}?', r'move\|(\w+)\|\{?(\w+)\.error\(\1\);?\}?', r'move\|\|\{?(\w+)\.complete\(\);?\}?')
 
 
 def rewrite_body(cl: Closure, sk: Skeleton, src: str, op: str, captures: Dict[str, str],
